@@ -238,7 +238,12 @@ def make_obs(kind, sen_eci, truth_eci, when, offset):
                          measurement=meas, **{k: float(v) for k, v in zip(labels, vals)})
         got = np.asarray(ob.measurement_states, dtype=float)
         ob.kind = kind
-        ob.reported = vals
+        # what the filter will read back, against what was reported: an angle may come back in another representation (whole turns away), nothing else
+        tau = 2 * math.pi
+        ob.reported_err = max([abs((g - v + math.pi) % tau - math.pi) if a.name != "NOT_ANGLE" else abs(g - v)
+                               for g, v, a in zip(got, vals, meas.angular_values)] + [0.0])
+        ob.reported_vals = [float(v) for v in vals]
+        ob.readback_vals = [float(g) for g in got]
         return ob
     return SimpleNamespace(
         measurement=meas, sensor_eci=sen_eci, r_matrix=meas.r_matrix, dim=len(labels),
@@ -258,6 +263,33 @@ def with_states(o, vals):
                      sensor_eci=np.asarray(o.sensor_eci, dtype=float), measurement=o.measurement, **{k: float(v) for k, v in zip(labels, vals)})
     ob.kind = o.kind
     return ob
+
+
+def report_oracle(c):
+    """an Observation built with reported angles hands the filter those angles, up to whole turns (linear components exactly)"""
+    from resonaate.data.observation import Observation
+    from resonaate.physics.measurements import Measurement
+
+    labels, rdiag = LAYOUTS[c["kind"]]
+
+    def f():
+        meas = Measurement.fromMeasurementLabels(labels, np.diag(rdiag))
+        vals = [c["az"], c["el"], 36000.0, 0.07][: len(labels)]
+        ob = Observation(julian_date=2459304.5, target_id=10001, sensor_id=60001, sensor_type=c["kind"], sensor_eci=np.array([7000.0, 0, 0, 0, 7.5, 0]),
+                         measurement=meas, **{k: float(v) for k, v in zip(labels, vals)})
+        got = [float(g) for g in np.asarray(ob.measurement_states, dtype=float)]
+        return vals, got, [a.name != "NOT_ANGLE" for a in meas.angular_values]
+
+    r = guarded(f)
+    if r[0] != "ok":
+        return [("obs:raises", str(r[1]))]
+    vals, got, ang = r[1]
+    tau = 2 * math.pi
+    for v, g, a in zip(vals, got, ang):
+        err = abs((g - v + math.pi) % tau - math.pi) if a else abs(g - v)
+        if err > 1e-9:
+            return [("obs:reported-angle", f"an observation built with the reported values {vals} hands the filter {got}: not the reported angles up to whole turns (off by {err:.6g} rad)")]
+    return []
 
 
 def new_ukf(est_x, est_p, resample, alpha=None):
@@ -286,8 +318,16 @@ def ukf_cases(run: Run):
                 "lat": rng.choice([30.0, -45.0, 60.0, 0.0]), "lon": rng.choice([-100.0, 10.0, 179.5]),
                 "resample": rng.random() < 0.5, "seed": rng.randint(0, 10**6), "turns": rng.choice([1, -1, 2, 5, 40]),
                 "alpha": rng.choice([None, None, 1e-4, 5e-5, 0.5]),
+                # (pushed elevations are probed without the filter, op `report` below: a 100 deg innovation makes the update itself meaningless -
+                # a LinAlgError there was a false alarm of this harness, seed 3)
+                "el_off": 0,
             }
         )
+    # what an Observation hands back to the filter, for any reported angles: beyond the zenith, below the nadir, near either seam, whole turns away
+    for _ in range(run.n(60, 600)):
+        out.append({"op": "report", "kind": rng.choice(["radar", "optical"]),
+                    "az": rng.choice([0.0, -1e-7, 6.283185307179586, 6.2832, 3.141592653589793, rng.uniform(-7, 14)]),
+                    "el": rng.choice([1.5707963267948966, 1.5725, -1.5709, 1.2, 3.1, -3.0, rng.uniform(-3.5, 3.5)]) + rng.choice([0, 0, 1, -3]) * 6.283185307179586})
     # the history shape that needs care: equal total dimension, different angular layout
     out.append({"op": "ukf", "hist": [["radar"], ["optical", "optical"]], "az": 0.0, "el": 45.0, "rng": 2000.0, "lat": 30.0,
                 "lon": -100.0, "resample": False, "seed": 7, "turns": 2})
@@ -321,6 +361,8 @@ def ukf_run(c, variant):
         obs = []
         for j, kind in enumerate(layout):
             off = rs.normal(0, 1, 4) * np.array([1e-4, 1e-4, 1e-3, 1e-5])
+            if c.get("el_off") and k == len(c["hist"]) - 1:
+                off[1] += math.radians(c["el_off"])  # a reported elevation carried past its nominal range by noise (a pass near the zenith)
             o = make_obs(kind, sen_eci, truth, when, off)
             obs.append(o)
         last = k == len(c["hist"]) - 1
@@ -343,7 +385,9 @@ def ukf_run(c, variant):
         f.update(obs)
         ang_flags = np.concatenate([[a.name != "NOT_ANGLE" for a in o.measurement.angular_values] for o in obs])
         res.append({"est_x": f.est_x.copy(), "est_p": f.est_p.copy(), "innovation": np.array(f.innovation, dtype=float).copy(),
-                    "ang": ang_flags, "is_angular": np.array(f.is_angular, dtype=bool).copy(), "kinds": [o.kind for o in obs]})
+                    "ang": ang_flags, "is_angular": np.array(f.is_angular, dtype=bool).copy(), "kinds": [o.kind for o in obs],
+                    "reported_err": max([getattr(o, "reported_err", 0.0) for o in obs] + [0.0]),
+                    "reported": [(getattr(o, "reported_vals", None), getattr(o, "readback_vals", None)) for o in obs]})
     return res
 
 
@@ -358,6 +402,11 @@ def ukf_oracle(run: Run, c):
     run.count(f"ukf:layout:{'+'.join(c['hist'][-1])}")
     if len(c["hist"]) > 1:
         run.count("ukf:multi-step")
+    for st in base[1]:
+        if st.get("reported_err", 0.0) > 1e-9:
+            fails.append(("obs:reported-angle", f"an observation built with the reported values {st['reported'][0][0]} hands the filter {st['reported'][0][1]}: "
+                                                f"not the reported angles up to whole turns (off by {st['reported_err']:.6g} rad)"))
+            break
     if not np.array_equal(b["is_angular"], b["ang"]):
         fails.append(("ukf:angular-flags", f"filter treats components {b['is_angular'].tolist()} as angular, the stacked measurement has {b['ang'].tolist()}"))
     for i, (nu, a) in enumerate(zip(b["innovation"], b["ang"])):
@@ -417,6 +466,11 @@ def run_all(run: Run, scal, ukfs):
     for key, what in mean_oracle(run):
         run.fail(key, {"op": "angmean"}, what)
     for c in ukfs:
+        if c["op"] == "report":
+            run.case("report", c, nontrivial=True, branch=c["kind"])
+            for key, what in report_oracle(c):
+                run.fail(key, c, what)
+            continue
         run.case("ukf", c, nontrivial=True, branch=f"steps={len(c['hist'])}")
         for key, what in ukf_oracle(run, c):
             run.fail(key, c, what)
@@ -468,7 +522,7 @@ def main():
     if run.args.replay:
         rp = json.loads(Path(run.args.replay).read_text())
         c = rp["case"]
-        if rp.get("kind") == "failing-input" and c.get("op") == "ukf":
+        if rp.get("kind") == "failing-input" and c.get("op") in ("ukf", "report"):
             run_all(run, [], [c])
         elif rp.get("kind") == "failing-input" and c.get("op") != "angmean":
             run_all(run, [c], [])
